@@ -34,6 +34,7 @@ REAL_VS_STUB = {
     "stub": ["the user (order of approvals)", "formatter states"],
 }
 CATS = ["create", "fix", "trim", "update"]
+MIN_BUDGET = 25
 
 
 def generate(seed, tier="quick"):
